@@ -401,7 +401,10 @@ def run(res):
     res.cover["step_scaling_1000_over_250"] = scal
     res.cover["beyond_bounds"] = {k: v for k, v in res.counters.items() if k.startswith("beyond-bounds-died")}
     res.cover["step_bound_C"] = STEP_C
-    if thorough:
+    if any(o.cls == "unlisted:hang" for o in res.obs):
+        # the same inputs would loop under valgrind / Miri until their own time limits: nothing to learn, the verdict is in
+        res.counters["sanitizer shards skipped: a hang is already confirmed"] += 1
+    elif thorough:
         sanitize.fuzz_shards(res, bins, payload_small, seed)
     else:
         sanitize.fuzz_shards(res, bins, payload_small, seed, valgrind_execs=150, miri_execs=0)
